@@ -13,10 +13,22 @@
 
     Monitor codes (Exec/ExecTrace.v, family 6; checked at run time on implementation and model
     traces):  61 <-> C06_only_if_restart_cmd;  62 <-> C06_after_report;  63 <-> C06_never_main;
-              66 <-> C06_count;  67 <-> C06_budget. *)
+              66 <-> C06_count;  67 <-> C06_budget.  All five are PROVED silent on the model trace:
+              C06_monitor. *)
 From MWF Require Import Base.Util Exec.ExecBase Exec.ExecGen Exec.ExecRun Exec.ExecTrace Exec.ExecGraph
      Exec.ExecPoll Exec.ExecPoll2 Exec.ExecPoll3 Exec.ExecPoll4 Exec.ExecHist Exec.ExecC02 Exec.ExecC06
-     Exec.ExecC0206Ex.
+     Exec.ExecMon6 Exec.ExecC0206Ex.
+
+(** THE MONITOR IS SILENT ON THE MODEL.  [prop_ok 6] is the predicate the correspondence run
+    evaluates, inside Coq, on the IMPLEMENTATION's recorded trace of every case (codes 61, 62, 63,
+    66, 67 of Exec/ExecTrace.v never raised).  On the model's own trace it holds for every graph,
+    configuration and history ([attempts >= 1] is what the ExecutionGraph constructor enforces). *)
+Theorem C06_monitor : forall c g ps, wf_graph g = true -> 0 < attempts c ->
+  valid_pins c g (init g) ps = true -> prop_ok 6 c g ps (run c g (init g) ps) = true.
+Proof. exact C06_monitor_wf. Qed.
+Print Assumptions C06_monitor.
+
+(** The same facts stated on the states and adapter calls of the run: *)
 
 (** The restart script is submitted only for steps that declare a restart command. *)
 Theorem C06_only_if_restart_cmd : forall c g ps, wf_graph g = true -> valid_pins c g (init g) ps = true ->
